@@ -411,7 +411,10 @@ def sort_issues(issues, reverse=False):
             if key in int_sort_list:
                 result.append(d.get(key, -1))
             else:
-                result.append(d.get(key, ""))
+                # Names are strings, but table columns are labelled by numbers when a file has no header line
+                # (and are missing for row-level issues): keep every combination comparable.
+                value = d.get(key, "")
+                result.append((isinstance(value, str), value))
         return tuple(result)
 
     issues = sorted(issues, key=_get_keys, reverse=reverse)
